@@ -163,3 +163,19 @@ Definition ja_unary_label (x : cat) : text :=
   else l_OTHER.
 (* the domain of the label: the result atom carries a feature triple (otherwise Python raises AttributeError) *)
 Definition result_ternary (x : cat) : Prop := match snd (result_atom x) with FTer _ _ _ _ _ _ => True | _ => False end.
+
+(* ---------- completeness: identical matched parts ---------- *)
+(* when the part the functor asks for is literally the argument (or the argument's result), the schema applies and nothing
+   needs instantiating: Expected_ja x y sym c says "the rule named sym must return c for (x, y)" *)
+Inductive Expected_ja (x y : cat) : text -> cat -> Prop :=
+| E_fa a s b : x = Fun a s b -> y = b -> fwd s -> Expected_ja x y sym_fa (if cat_eqb a b then y else a)
+| E_ba a s b : y = Fun a s b -> x = b -> bwd s -> Expected_ja x y sym_ba (if cat_eqb a b then x else a)
+| E_fc a s b s' c : x = Fun a s b -> y = Fun b s' c -> fwd s -> fwd s' ->
+    Expected_ja x y sym_fc (if cat_eqb a b then y else Fun a t_fwd c)
+| E_bx b s c o a s' : x = wrap (Fun b s c) o -> y = Fun a s' b -> bwd s -> bwd s' -> (length o <= 3)%nat ->
+    Expected_ja x y (sym_bx (S (length o))) (if cat_eqb a b then x else wrap (Fun a t_bwd c) o)
+| E_fx1 a s b s' c : x = Fun a s b -> y = Fun b s' c -> fwd s -> bwd s' ->
+    Expected_ja x y (sym_fx 1) (if cat_eqb a b then y else Fun a t_fwd c)
+| E_fxn a s b s' c o : x = Fun a s b -> y = wrap (Fun b s' c) o -> fwd s -> bwd s' -> (1 <= length o <= 2)%nat ->
+    Expected_ja x y (sym_fx (S (length o))) (if cat_eqb a b then y else wrap (Fun a t_bwd c) o)
+| E_sseq : In x ja_roots -> In y ja_roots -> Expected_ja x y sym_sseq y.
